@@ -91,6 +91,11 @@ pub fn reset() {
         DENTS2_SRC = core::ptr::null();
         DENTS2_LEN = 0;
         DENTS_CALLS = 0;
+        TREE_ROOT_FD = -1;
+        TREE_CHILD_FD = -1;
+        TREE_ROOT_READ = false;
+        TREE_CHILD_READ = false;
+        TREELOG_LEN = 0;
     }
 }
 
@@ -445,6 +450,62 @@ pub static mut DENTS2_SRC: *const u8 = core::ptr::null();
 pub static mut DENTS2_LEN: usize = 0;
 pub static mut DENTS_CALLS: usize = 0;
 
+/// ghost directory tree for remove_all: getdents64 answers per descriptor (TREE_ROOT_FD gets the first
+/// buffer once, the first directory opened with openat gets the second buffer once, everything else is
+/// empty), and every openat / unlinkat is logged with its directory descriptor, name, flags and answer
+pub const MODE_TREE: u32 = 1024;
+pub static mut TREE_ROOT_FD: i32 = -1;
+pub static mut TREE_CHILD_FD: i32 = -1;
+pub static mut TREE_ROOT_READ: bool = false;
+pub static mut TREE_CHILD_READ: bool = false;
+pub const TREELOG_CAP: usize = 8;
+#[derive(Clone, Copy)]
+pub struct TreeRec {
+    pub nr: usize,
+    pub dirfd: i32,
+    pub name: [u8; 8],
+    pub len: usize,
+    pub flags: usize,
+    pub ret: usize,
+}
+pub static mut TREELOG: [TreeRec; TREELOG_CAP] = [TreeRec { nr: 0, dirfd: 0, name: [0; 8], len: 0, flags: 0, ret: 0 }; TREELOG_CAP];
+pub static mut TREELOG_LEN: usize = 0;
+pub fn set_tree_root(fd: i32) {
+    unsafe { TREE_ROOT_FD = fd }
+}
+pub fn tree_child_fd() -> i32 {
+    unsafe { TREE_CHILD_FD }
+}
+pub fn treelog_len() -> usize {
+    unsafe { TREELOG_LEN }
+}
+pub fn treelog(i: usize) -> TreeRec {
+    unsafe { TREELOG[i] }
+}
+unsafe fn log_tree(n: usize, args: &[usize; 7], ret: usize) {
+    let p = args[1] as *const u8;
+    let mut rec = TreeRec { nr: n, dirfd: args[0] as i32, name: [0; 8], len: 0, flags: args[2], ret };
+    let mut i = 0;
+    while i < 8 {
+        let b = *p.add(i);
+        if b == 0 {
+            break;
+        }
+        rec.name[i] = b;
+        i += 1;
+    }
+    rec.len = i;
+    if TREELOG_LEN < TREELOG_CAP {
+        TREELOG[TREELOG_LEN] = rec;
+        TREELOG_LEN += 1;
+    } else {
+        TRACE_OVERFLOW += 1;
+    }
+    if n == nr::OPENAT && !is_err(ret) && TREE_CHILD_FD == -1 {
+        TREE_CHILD_FD = ret as i32;
+    }
+}
+
 pub fn set_dents2(src: *const u8, len: usize) {
     unsafe {
         DENTS2_SRC = src;
@@ -623,7 +684,18 @@ pub unsafe fn dispatch(n: usize, args: [usize; 7], nargs: u8) -> usize {
         }
     } else if mode & MODE_DENTS != 0 && n == nr::GETDENTS64 {
         let out = args[1] as *mut u8;
-        let (src, len) = if DENTS_CALLS == 0 { (DENTS_SRC, DENTS_LEN) } else if DENTS_CALLS == 1 { (DENTS2_SRC, DENTS2_LEN) } else { (core::ptr::null(), 0) };
+        let (src, len) = if mode & MODE_TREE != 0 {
+            let fd = args[0] as i32;
+            if fd == TREE_ROOT_FD && !TREE_ROOT_READ {
+                TREE_ROOT_READ = true;
+                (DENTS_SRC, DENTS_LEN)
+            } else if fd == TREE_CHILD_FD && fd != -1 && !TREE_CHILD_READ {
+                TREE_CHILD_READ = true;
+                (DENTS2_SRC, DENTS2_LEN)
+            } else {
+                (core::ptr::null(), 0)
+            }
+        } else if DENTS_CALLS == 0 { (DENTS_SRC, DENTS_LEN) } else if DENTS_CALLS == 1 { (DENTS2_SRC, DENTS2_LEN) } else { (core::ptr::null(), 0) };
         DENTS_CALLS += 1;
         let k = if len <= args[2] { len } else { 0 };
         let mut i = 0;
@@ -655,6 +727,9 @@ pub unsafe fn dispatch(n: usize, args: [usize; 7], nargs: u8) -> usize {
             *out = a;
             *out.add(1) = b;
         }
+    }
+    if mode & MODE_TREE != 0 && (n == nr::OPENAT || n == nr::UNLINKAT) {
+        log_tree(n, &args, ret);
     }
     record(n, args, nargs, ret);
     ret
